@@ -102,7 +102,10 @@ Definition rmon_step (m : rmon) (x : rop * robs) : option rmon :=
   | Send p msgs =>
       let store pid := {| m_parts := upd_nth (N.to_nat (pid - 1)) (fun l => l ++ msgs) (m_parts m);
                           m_last := m_last m; m_keys := m_keys m |} in
-      if pc =? 0 then (if (code =? 2) && list_eqb changed [] then Some m else None)
+      (* code 6: refused for a reason outside partition selection (the topic is full): nothing is stored and the
+         rotation does not move *)
+      if code =? 6 then (if list_eqb changed [] then Some m else None)
+      else if pc =? 0 then (if (code =? 2) && list_eqb changed [] then Some m else None)
       else match msgs with
       | [] => if (code =? 1) && list_eqb changed [] then Some m else None
       | _ =>
@@ -133,13 +136,18 @@ Definition rmon_step (m : rmon) (x : rop * robs) : option rmon :=
         end
       end
   | AddParts n =>
-      if n =? 0 then (if code =? 5 then Some m else None)
+      (* AddParts 0 with code 7 stands for a restart of the server: the partitions and their contents stay, the rotation may
+         start anywhere *)
+      if n =? 0 then (if code =? 5 then Some m
+                      else if code =? 7 then Some {| m_parts := m_parts m; m_last := None; m_keys := m_keys m |} else None)
       else if MAX_PARTITIONS <? pc + n then (if code =? 4 then Some m else None)
       else if code =? 5
            then Some {| m_parts := m_parts m ++ repeat [] (N.to_nat n); m_last := None; m_keys := m_keys m |}
            else None
   | DelParts n =>
-      if n =? 0 then (if code =? 5 then Some m else None)
+      (* DelParts 0 with code 8 stands for a purge of the topic: every partition is emptied, the rotation goes on *)
+      if n =? 0 then (if code =? 5 then Some m
+                      else if code =? 8 then Some {| m_parts := map (fun _ => []) (m_parts m); m_last := m_last m; m_keys := m_keys m |} else None)
       else if code =? 5
            then Some {| m_parts := firstn (N.to_nat (pc - N.min n pc)) (m_parts m); m_last := None; m_keys := m_keys m |}
            else None
